@@ -1,15 +1,15 @@
 SPECIFICATION Spec
 CONSTANTS
   Threads = {1}
-  KeySet <- Keys_ABQ
+  KeySet <- Keys_T2N3
   TraitTypes = {"Q0", "Q1"}
-  PlainKinds <- Plain_Lazy
-  MaxDeps = 1
+  PlainKinds <- Plain_All
+  MaxDeps = 0
   ViaSet <- Vias_Get
-  MaxOps = 5
-  MaxRegs = 5
-  MaxDepth = 4
-  SymClasses <- Sym_None
+  MaxOps = 4
+  MaxRegs = 4
+  MaxDepth = 2
+  SymClasses <- Sym_TN
   Gen = TRUE
 VIEW GenView
 ACTION_CONSTRAINT Emit
